@@ -245,3 +245,40 @@ def ends_with(func_node, pattern: str, env: Optional[Env] = None) -> bool:
         if not any(_is_ellipsis_stmt(p) for p in ps):
             break
     return False
+
+
+class _Rename(ast.NodeTransformer):
+    def __init__(self, mapping):
+        self.mapping = mapping
+
+    def visit_Name(self, node):
+        if node.id in self.mapping:
+            return ast.copy_location(ast.Name(id=self.mapping[node.id], ctx=node.ctx), node)
+        return node
+
+
+def canon(func_node, patterns, env: Optional[Env] = None):
+    """Canonicalise the local names of a function: each pattern (a statement shape that *defines* a local) is searched with a
+    shared Env; every bound metavariable __x renames the identifier it bound to `x` in a deep copy of the function.  Rules can
+    then keep naming locals by their role ("rrnamebuf") while the code is free to spell them differently.  A pattern that does
+    not match binds nothing (the role stays unnamed, and the rule that needs it reports the shape change).
+    Returns (canonicalised copy, env).  Line numbers are preserved."""
+    import copy
+    env = env if env is not None else Env()
+    for p in patterns:
+        has(func_node, p, env)
+    mapping = {}
+    for mv, actual in env.items():
+        if mv.startswith("___"):
+            continue
+        role = mv[2:]
+        if actual != role:
+            mapping[actual] = role
+    if not mapping:
+        return func_node, env
+    taken = set(mapping.values())
+    # a different local that already uses a role name must get out of the way
+    for n in ast.walk(func_node):
+        if isinstance(n, ast.Name) and n.id in taken and n.id not in mapping and n.id not in env.values():
+            mapping[n.id] = n.id + "__other"
+    return _Rename(mapping).visit(copy.deepcopy(func_node)), env
